@@ -26,6 +26,20 @@ for line in p.stdout.splitlines():
     if m and prefix:
         (passed if m.group(2) == "ok" else failed).add(prefix + m.group(1))
 missing = sorted(stable - passed)
+# tests of tests/main.rs share output directories and race with each other now and then: a test that did not pass in
+# the parallel run is re-run alone before it counts as missing
+still = []
+for t in missing:
+    parts = t.split("::")
+    if len(parts) >= 3 and parts[1] == "main":
+        name = "::".join(parts[2:])
+        q = subprocess.run(["cargo", "test", "--offline", "--test", parts[1], name, "--", "--exact"], cwd="/repo",
+                           stdout=subprocess.PIPE, stderr=subprocess.STDOUT, text=True)
+        if re.search(r"test %s ... ok" % re.escape(name), q.stdout):
+            passed.add(t)
+            continue
+    still.append(t)
+missing = still
 print("stable_pass=%d passed_now=%d stable_missing=%d" % (len(stable), len(passed), len(missing)))
 for t in missing[:50]:
     print("  NOT PASSING:", t)
